@@ -184,6 +184,18 @@ def c09(ctx, replay):
                         "incomplete): %s" % (ex["inputs_without_matching_behaviour"], ex.get("unmatched_sample")))
         ctx.add_report(rep, "quota", traces=ex.get("behaviours_compared", 0))
         ctx.extra["b2"] = ex
+    if replay is None:
+        # larger populations (7..10 organisms, up to 5 species, all age classes and modes) by TLC simulation; a simulated
+        # behaviour fixes ONE loss vector at random, so only those that agree with the real arithmetic are compared
+        sim = ctx.tlc("MC_Quota", "Sim_Quota.cfg", simulate="num=%d" % (300 if thorough else 12), depth=14, workers=8 if thorough else 4,
+                      extra=["-seed", str(ctx.seed)], timeout=1800)
+        spec_must_hold(sim, "Sim_Quota")
+        sim_rep_file = ctx.path("quota_sim_report.json")
+        _, srep, _ = ctx.vh(["replay-quota", "-cases", sim.cases_file, "-out", sim_rep_file], pkg="vh_species",
+                            expect_report=sim_rep_file, timeout=3000)
+        ctx.add_report(srep, "quota", traces=srep.get("extra", {}).get("behaviours_compared", 0))
+        ctx.extra["b2_simulated"] = srep.get("extra", {})
+        ctx.extra["scope"]["simulate"] = "7..10 organisms, <= 5 species, fitness 0..3, 9 age classes, babies stolen 0..5, 3 stagnation modes"
     if replay is not None and b1 is None:
         return
     scen, epochs = (500, 16) if thorough else (50, 10)
